@@ -669,3 +669,10 @@ func (fc *FnCtx) posStr(p token.Pos) string {
 	pos := fc.eng.fset.Position(p)
 	return fmt.Sprintf("%s:%d", strings.TrimPrefix(pos.Filename, fc.eng.repo+"/"), pos.Line)
 }
+
+// isStablePath: the location p points to lies inside a field declared stable.
+func (fc *FnCtx) isStablePath(p PtrV) bool {
+	defer func() { recover() }()
+	prefix, _ := keyBase(p)
+	return fc.isStableKey(prefix)
+}
